@@ -39,7 +39,7 @@ claim("C06",
 
 claim("C19",
       "Proof, at every site, that a private torrent takes no peers from DHT or PEX, starts no DHT announcer, starts no "
-      "PEX sender and refuses to export a magnet link; whole-program whitelists pin the functions that may reach those "
+      "PEX sender, refuses to export a magnet link, sends no DHT port message to its peers and adds no DHT node from theirs; whole-program whitelists pin the functions that may reach those "
       "sites. Partial: behaviour of the DHT library and the encodings of the private flag are outside.",
       "DESIGN.md §4 C19")
 
@@ -66,7 +66,7 @@ claim("C05",
 
 claim("C12",
       "Proof of the forced-encryption policy on the accept and dial paths (a successful forced handshake selected RC4 "
-      "and returns the MSE stream; no plaintext write or retry when forced, whatever the enable/disable option says), of the cipher-selection checks, and of the "
+      "and returns the MSE stream; no plaintext write or retry when forced, whatever the enable/disable option says; a connection that is not an MSE stream is reported with cipher 0), of the cipher-selection checks, and of the "
       "sync-window arithmetic for every pad length; the handshaker goroutines pass the session's policy flags, the "
       "info-hash and our peer id to Dial/Accept unchanged and report RC4 after a forced handshake. Partial: DH/RC4 key agreement and byte transparency of the stream "
       "are cryptographic two-party properties outside function contracts.",
@@ -85,18 +85,18 @@ claim("C08",
       "downloader and the bitfield never index out of range under their representation invariants (which every operation "
       "re-establishes); that the piece downloader never indexes its buffer out of range, never reaches its explicit "
       "panics and only requests or cancels blocks of its piece (representation invariant established by New from the "
-      "block layout); that extension messages, tracker replies, torrent files and magnet metadata reach the bencode decoder only after a guard accepted exactly those bytes (ghost-tracked), the guard itself never reads out of bounds and terminates, and - bounded stand-in, 9.6 million strings - its verdict agrees with the decoder's grammar: nesting deeper than 64 levels and strings declared longer than the data are refused (the decoder recurses per level and allocates a declared length before reading). Partial: isolation between peers and deadlock freedom are concurrency properties outside.",
+      "block layout); that extension messages, tracker replies, torrent files and magnet metadata reach the bencode decoder only after a guard accepted exactly those bytes (ghost-tracked), the guard itself never reads out of bounds and terminates, and - bounded stand-in, 9.6 million strings - its verdict agrees with the decoder's grammar: nesting deeper than 64 levels and strings declared longer than the data are refused (the decoder recurses per level and allocates a declared length before reading). At most 200 addresses of a PEX message are decoded (length cap in front of both DecodePeersCompact sites); a metadata data message carries the sub-slice of the info bytes at 16 KiB times the requested index (no wrap-around). Partial: isolation between peers and deadlock freedom are concurrency properties outside.",
       "DESIGN.md §4 C08")
 
 claim("C14",
       "Proof of the port take/release balance of the session (a failed add leaves the free-port set exactly as it was, "
-      "including the deferred release on every error path; a successful add removes exactly the returned port, which lies in the configured range; releasePort adds only ports of the configured range to the pool); the persisted started flag follows Start, Stop and Verify (ghost-tracked resumer write); stop-after options are cleared in memory where they are cleared in the db. "
+      "including the deferred release on every error path; a successful add removes exactly the returned port, which lies in the configured range; releasePort adds only ports of the configured range to the pool); the persisted started flag follows Start, Stop and Verify (ghost-tracked resumer write); stop-after options are cleared in memory where they are cleared in the db; a given id is checked against live torrents, reservations and records that failed to load, and reserved, in one step; a record is loaded only onto a free port; commands on a removed torrent do not touch the missing bucket. Bounded stand-ins also cover compaction keeping the recorded started flag and resume version, and the resume codec for nanosecond timestamps and non-UTF-8 strings (refused). "
       "Partial: concurrent adders, restart equivalence through a real database and the resume codec pairing are outside "
       "or not yet under contract (see evidence).",
       "DESIGN.md §4 C14")
 
 claim("C17",
-      "Proof of the guard-before-insert obligations at the sites that open connections (accept and dial caps hold in the state in which a handshaker is created) and of the outstanding-request cap (result never exceeds MaxRequestsOut, whatever a peer advertises); that the address queue counts every insertion and every replacement exactly once towards the pushed source (the step that keeps the per-source counters summing to the queue length); that the web-seed slot counter is decremented exactly where an open downloader is closed (closeWebseedDownloader's postcondition, and no other decrement in the handlers except after WebseedStopAt reported a close) and incremented only below WebseedMaxDownloads. For the resource manager (generic code, verified once on its generic body): an immediate grant is made exactly when the amount fits and leaves 0 <= available <= limit, its assertion cannot fire, the candidate picked for a deferred grant fits into what is available, removing a queued request keeps the others' amounts, and requests and releases are sent with non-negative amounts. A reject re-queues a block only if it was pending (the list of blocks to request cannot outgrow the piece); an item too large for the read cache has no timer to reset (cache sizes below the block size cannot crash a reader). Partial: token buckets, RAM reservations across goroutines, the manager's loop as a whole (queued amounts stay non-negative on insertion is not proved) and the agreement between the queue's slice and its external btree are outside (see evidence).",
+      "Proof of the guard-before-insert obligations at the sites that open connections (accept and dial caps hold in the state in which a handshaker is created) and of the outstanding-request cap (result never exceeds MaxRequestsOut, whatever a peer advertises); that the address queue counts every insertion and every replacement exactly once towards the pushed source (the step that keeps the per-source counters summing to the queue length); that the web-seed slot counter is decremented exactly where an open downloader is closed (closeWebseedDownloader's postcondition, and no other decrement in the handlers except after WebseedStopAt reported a close) and incremented only below WebseedMaxDownloads. For the resource manager (generic code, verified once on its generic body): an immediate grant is made exactly when the amount fits and leaves 0 <= available <= limit, its assertion cannot fire, the candidate picked for a deferred grant fits into what is available, removing a queued request keeps the others' amounts, and requests and releases are sent with non-negative amounts. A reject re-queues a block only if it was pending (the list of blocks to request cannot outgrow the piece); an item too large for the read cache has no timer to reset (cache sizes below the block size cannot crash a reader); a configuration accepted by NewSession has positive ticker periods, a positive read-cache block size, at least one read and one write slot and non-negative list sizes (Config.validate, and NewSession returns a session only after validate accepted). Partial: token buckets, RAM reservations across goroutines, the manager's loop as a whole (queued amounts stay non-negative on insertion is not proved) and the agreement between the queue's slice and its external btree are outside (see evidence).",
       "DESIGN.md §4 C17")
 
 claim("C18",
@@ -121,7 +121,7 @@ claim("C04",
       "options are consumed; a Stop() from the user also ends a pending re-check; the result of a piece writer that was "
       "started in a previous run is ignored (bitfield set and stop(err) only for a piece object of the current run); "
       "completed bytes follow from bitfield and metainfo alone; an added tracker gets its announcer only while "
-      "announcers run; loop-owned state is reached only through the event loop: every function that writes a field of "
+      "announcers run; commands reach startAnnouncers with every tracker getting an announcer (also when some announcers run already); loop-owned state is reached only through the event loop: every function that writes a field of "
       "the torrent struct, and the handlers that update its maps, are reachable from goroutine entries and API entry "
       "points only via run() (whole-program call-graph dominance check). Bounded stand-ins (labelled, not counted): an allocator whose result is not received leaves "
       "no file open (99 cases); closing an incoming handshaker does not wait for the handshake timeout (6 cases). "
@@ -163,7 +163,7 @@ claim("C11",
       "that the reader hands the torrent the message type that belongs to the id it read (both directions), and that the "
       "writer puts length = 1 + body length and the id into the first five bytes of the very buffer it sends, also when "
       "the body outgrew the fixed array (bytes.Buffer modelled as append). Upload accounting: the reported block length is "
-      "the bytes written minus the 13 header bytes. Partial: body bytes inside the writer come from Buffer.ReadFrom and "
+      "the bytes written minus the 13 header bytes. PEX lists take IPv4 addresses only (NewCompactPeer is reached only after To4 returned four bytes). Partial: body bytes inside the writer come from Buffer.ReadFrom and "
       "are not linked to the Read contracts; reflection-based binary.Read/Write (reader fields, handshake layout), bencoded "
       "extension payloads and stream fragmentation are outside.",
       "DESIGN.md §4 C11")
